@@ -20,7 +20,7 @@ MANIFEST_INFO = {
     "engine": "A",
     "design_ref": "DESIGN.md section 5, C05",
     "technique": "stateless deviation-bounded DFS over stage behaviours of generated TestCase programs that attach details (colliding names, empty/multi-chunk/binary/volatile payloads), use assertThat/expectThat with detail-carrying mismatches, detail-carrying fixtures (setUp ok/failing) and addOnException handlers; marker accounting on the details delivered to an extended result that reads every detail inside the outcome call",
-    "level_text": "288 payload configurations (user details under 6 sets of colliding names x 4 mismatch shapes x 3 fixture shapes x handlers on/off x both spellings of expected failure) x every program with at most 3 (quick) / 4 (= all, thorough) deviating stages over 8 behaviours: every attached payload marker must arrive in exactly one delivered detail with identical bytes and equal content type, every user exception marker in exactly one text/x-traceback detail, the skip reason as given, volatile content as of reporting time, and every handler once per user exception before the outcome.",
+    "level_text": "384 payload configurations (user details under 6 sets of colliding names x 4 mismatch shapes x 4 fixture shapes x handlers on/off x both spellings of expected failure) x every program with at most 3 (quick) / 4 (= all, thorough) deviating stages over 8 behaviours: every attached payload marker must arrive in exactly one delivered detail with identical bytes and equal content type, every user exception marker in exactly one text/x-traceback detail, the skip reason as given, volatile content as of reporting time, and every handler once per user exception before the outcome.",
     "level_note": "User details with names that collide with generated ones are attached while the details dict is still empty (attaching a detail under a name that already exists is a documented overwrite, outside the statement); the name 'reason' is never used for user details; extra tracebacks produced by testtools/fixtures themselves (forced failure, SetupError) are allowed.",
 }
 
@@ -37,7 +37,7 @@ NAME_SETS = (
     ("foo", "foo-1", "traceback", "traceback-1", "Failed expectation", "Failed expectation-1", "traceback-2"),
 )
 MISMATCH_SHAPES = ("none", "assert", "expect", "expect+assert")
-FIXTURE_SHAPES = ("none", "ok@setUp", "fail@test")
+FIXTURE_SHAPES = ("none", "ok@setUp", "fail@test", "fail+badcleanup@test")
 KINDS = (pg.RET, pg.FAIL, pg.ERROR, pg.SKIP, pg.XFAIL, pg.UXSUCCESS, pg.MULTI, pg.KBI)
 
 
@@ -83,16 +83,22 @@ class DetailMatcher:
 
 
 class DFixture(fixtures.Fixture):
-    def __init__(self, details, fail_marker):
+    def __init__(self, details, fail_marker, bad_cleanup=False):
         super().__init__()
         self._dd = details
         self._fail = fail_marker
+        self._bad_cleanup = bad_cleanup
 
     def _setUp(self):
         for k, v in self._dd.items():
             self.addDetail(k, v)
+        if self._bad_cleanup:
+            self.addCleanup(self._boom)
         if self._fail:
             raise pg.VerifError(self._fail)
+
+    def _boom(self):
+        raise pg.VerifError("fixture-cleanup-boom")
 
 
 def note_payload(ctx, marker, ctype, data, site):
@@ -140,12 +146,14 @@ def do_expect(case, ctx, site, action):
 
 
 def do_fixture(case, ctx, site, action):
-    _, fail = action
-    d = _mk_details(ctx, "F", ("foo", "traceback", "fx"), site)
+    fail = action[1]
+    bad_cleanup = len(action) > 2 and action[2]
+    # (the fixture's own names collide with each other's renamings: foo / foo-1)
+    d = _mk_details(ctx, "F", ("foo", "foo-1", "traceback", "fx"), site)
     marker = "%s!fixture" % site if fail else None
     if fail:
         ctx.extra.setdefault("user_exc", []).append(marker)
-    case.useFixture(DFixture(d, marker))
+    case.useFixture(DFixture(d, marker, bad_cleanup))
 
 
 def do_handlers(case, ctx, site, action):
@@ -188,6 +196,8 @@ def build_config(names, mm, fx, nhandlers, dec):
     t.append(("detail", "d-test", "volatile"))
     if fx == "fail@test":
         t.append(("dfixture", True))
+    if fx == "fail+badcleanup@test":
+        t.append(("dfixture", True, True))
     if "expect" in mm:
         t.append(("expect_mm",))
     if "assert" in mm:
@@ -275,7 +285,7 @@ def check_execution(cfg, ctx, config, shared, how):
         mb = m.encode("utf8")
         hits = [k for k, (ct, b) in details.items() if ct == tb_type and mb in b]
         # a failing fixture's SetupError traceback chains ("During handling of ...") the original one
-        if len(hits) != 1 and not (m.endswith("!fixture") and len(hits) == 2):
+        if len(hits) != 1 and not (m.endswith("!fixture") and len(hits) in (2, 3)):
             clause = "traceback"
             if config.decorator == "xfail_decorator" and m.startswith("test!"):
                 clause = "traceback-behind-expectedFailure-decorator"
